@@ -501,11 +501,20 @@ func propC18TimeTemplateEncodings(t *rapid.T) {
 	}
 	switch which {
 	case 0: // time parse
-		layout := rapid.SampledFrom(layouts).Draw(t, "layout")
+		layout := rapid.SampledFrom(append(append([]string{}, layouts...), time.UnixDate, time.RFC822, time.RFC1123Z, time.RFC850)).Draw(t, "layout")
+		// time.Parse matches offsets and zone abbreviations against time.Local: the
+		// process's local zone is part of the wrapped function's behaviour, so it is
+		// drawn too (restored afterwards; nothing here runs in parallel)
+		defer func(l *time.Location) { time.Local = l }(time.Local)
+		time.Local = rapid.SampledFrom(locs).Draw(t, "processLocalZone")
 		in := genTexts(t, 3)
 		for i := range in {
 			if rapid.Bool().Draw(t, "valid") {
-				in[i] = time.Unix(rapid.Int64Range(-1e10, 1e10).Draw(t, "ts"), 0).UTC().Format(layout)
+				zone := time.Local
+				if rapid.IntRange(0, 2).Draw(t, "otherZone") == 0 {
+					zone = rapid.SampledFrom(locs).Draw(t, "inputZone")
+				}
+				in[i] = time.Unix(rapid.Int64Range(-1e10, 1e10).Draw(t, "ts"), 0).In(zone).Format(layout)
 			}
 		}
 		liftCheck(t, "time.Parse", []any{layout}, rotime.Parse[string](layout), in, func(s string) (time.Time, error) { return time.Parse(layout, s) })
